@@ -2,6 +2,7 @@ import Beetswap.Proofs.NetProgDefs
 import Beetswap.Proofs.NetGhost
 import Beetswap.Proofs.NetProgABase
 import Beetswap.Proofs.NetProgAMsg
+import Beetswap.Proofs.NetProgADrain
 /-!
 Progress, requesting side: the effect of the actions that touch `a` (`drainA`, `lookupA`,
 `putDoneA`, `deliverBA`) on the lexicographic measure `meas`.
@@ -140,9 +141,39 @@ theorem meas_deliverBA (g : GS) (ha : AInv g) :
         omega
     exact ⟨Meas.le_of_lt hlt, fun _ => hlt⟩
 
+/-- `hq`: the event queue of `a` holds user events only (`PA.qev_reach`: true of every reachable
+state). `AInv` alone does not exclude a blockstore call sitting in the event queue, which a drain
+would flush into `callsA`. -/
 theorem meas_drainA (g : GS) (ha : AInv g) (hq : PA.QEv g.s) :
     (meas (step g.s .drainA)).le (meas g.s) ∧
     (BusyA g.s → (meas (step g.s .drainA)).lt (meas g.s)) := by
-  sorry
+  obtain ⟨sb, scb, swb, _⟩ := PA.drainA_state g ha
+  obtain ⟨_, cr, cq, _⟩ := PA.drainA_client g ha
+  obtain ⟨h1, _, h7⟩ := PA.drainA_c1 g ha hq
+  obtain ⟨h2, h3, hn, h4', hsome, h4⟩ := PA.drainA_c234 g ha hq
+  have h5 : (meas (step g.s .drainA)).c5 = (meas g.s).c5 := PA.c5_congr sb scb
+  have h6 : (meas (step g.s .drainA)).c6 = (meas g.s).c6 := by
+    rw [PA.c6_eq, PA.c6_eq, swb]
+  have h8' : (meas (step g.s .drainA)).c8 = g.s.b.server.runq.length + bReady g.s := by
+    rw [PA.c8_eq, cr, cq, sb, PA.bReady_congr sb]; simp
+  have h8 := PA.c8_eq g.s
+  constructor
+  · unfold Meas.le Meas.lt
+    omega
+  · intro hbusy
+    by_cases hr : g.s.a.client.runq = []
+    · by_cases hqe : g.s.a.client.queue = []
+      · rcases hbusy with hb | hb | hb
+        · exact absurd hr hb
+        · exact absurd hqe hb
+        · have hs := hsome (PA.drainA_busy_sent g ha hr hqe hb)
+          unfold Meas.lt
+          omega
+      · have : 0 < g.s.a.client.queue.length := List.length_pos_iff.2 hqe
+        unfold Meas.lt
+        omega
+    · have : 0 < g.s.a.client.runq.length := List.length_pos_iff.2 hr
+      unfold Meas.lt
+      omega
 
 end Beetswap.Proofs.Net
